@@ -199,6 +199,22 @@ def substitute(t, mapping: dict):
     return t
 
 
+def top_cases(t):
+    """Like cases() but only for the conditional at the root of the term: [(guards dict, alternative)]; a conditional inside an
+    alternative (an argument) stays as it is."""
+    if isinstance(t, App) and t.op == "phi":
+        g, a, b = t.args
+        out = []
+        for ga, va in top_cases(a):
+            if ga.get(g, True) is True:
+                out.append(({**ga, g: True}, va))
+        for gb, vb in top_cases(b):
+            if gb.get(g, False) is False:
+                out.append(({**gb, g: False}, vb))
+        return out
+    return [({}, t)]
+
+
 def cases(t, limit=256):
     """Expand phi nodes into a decision table: list of (guards dict, phi-free term)."""
     def go(x):
